@@ -15,30 +15,30 @@ import (
 // answers off the wire.
 
 type scripted struct {
-	m       *Sim
-	a       *Association
-	cfg     epCfg
-	tag     uint32 // our verification tag (the endpoint puts it into packets it sends us)
-	aTag    uint32 // the endpoint's tag (we put it into packets we send)
-	aTSN0   uint32 // endpoint's initial TSN
-	tsn     uint32 // next TSN we send
-	tsn0    uint32
-	il      bool // interleaving negotiated
-	ourIL   bool
-	ourZC   bool
-	arwnd   uint32
-	seenEv  int
-	ssn     map[uint16]uint16
-	mid     map[uint16]uint32
-	recvd   map[uint32]*wChunk // DATA chunks the endpoint sent us, by TSN
-	cum     uint32             // highest TSN received in sequence from the endpoint
-	cookie  []byte
-	dialT   *vsched.Thread
-	rdT     []*vsched.Thread
-	readMu  map[uint16]*[]rmsg
-	readErr map[uint16]error
-	used map[uint32]bool // every TSN ever put into a packet for the endpoint
-	arwndNow uint32     // a_rwnd to advertise in honest SACKs (0: arwnd)
+	m        *Sim
+	a        *Association
+	cfg      epCfg
+	tag      uint32 // our verification tag (the endpoint puts it into packets it sends us)
+	aTag     uint32 // the endpoint's tag (we put it into packets we send)
+	aTSN0    uint32 // endpoint's initial TSN
+	tsn      uint32 // next TSN we send
+	tsn0     uint32
+	il       bool // interleaving negotiated
+	ourIL    bool
+	ourZC    bool
+	arwnd    uint32
+	seenEv   int
+	ssn      map[uint16]uint16
+	mid      map[uint16]uint32
+	recvd    map[uint32]*wChunk // DATA chunks the endpoint sent us, by TSN
+	cum      uint32             // highest TSN received in sequence from the endpoint
+	cookie   []byte
+	dialT    *vsched.Thread
+	rdT      []*vsched.Thread
+	readMu   map[uint16]*[]rmsg
+	readErr  map[uint16]error
+	used     map[uint32]bool // every TSN ever put into a packet for the endpoint
+	arwndNow uint32          // a_rwnd to advertise in honest SACKs (0: arwnd)
 }
 
 // sackCum is the cumulative point the endpoint currently has for its own data.
